@@ -215,6 +215,19 @@ func runC05(w *World, r *Report) {
 		r.Check(ok, "C05.checkpoint-fields", "handleInterrupt saves every pending task input", hInt.Pos(), "Inputs[task.nodeKey] = task.input for each next task", "pending inputs are not saved per task")
 	}
 
+	// ---- load-errors-kept
+	r.Rule("C05.load-errors-kept", "on the save / load path (package compose, internal/serialization) a success return after an error-yielding call is reached only where that error was tested nil: a checkpoint that cannot be read back is an error of the resume, never 'no checkpoint, start over' (shared with C13.no-dropped-error)", 1)
+	{
+		nf := 0
+		for _, fn := range w.RepoFuncs("compose", "internal/serialization") {
+			nf++
+			for _, d := range errDroppedReturns(fn) {
+				r.Fail("C05.load-errors-kept", fmt.Sprintf("%s: success return after %s", w.fname(fn), calleeFullName(d.call)), d.ret.Pos(), d.why+" — a stored checkpoint that fails to load (store error, undecodable bytes) is treated as absent: the resume silently starts the run from the beginning and re-executes every completed node")
+			}
+		}
+		r.OK("C05.load-errors-kept", fmt.Sprintf("success returns of %d functions", nf), token.NoPos, "none is reachable past an untested / non-nil callee error")
+	}
+
 	// ---- channel-state
 	r.Rule("C05.channel-state", "channel bookkeeping fields are exported, copied by load, and persisted types are registered", 8)
 	registered := map[string]bool{}
